@@ -117,12 +117,17 @@ def _tail(out, n=60):
     return "\n".join(lines[-n:])
 
 
+_RE_TUPLE2 = {}
+
+
 def printed_tuples(out, head):
-    """Yield the payloads of PrintT(<<head, ...>>) lines: `<<"HEAD", "json">>` -> parsed json string payloads."""
-    pref = '<<"%s", ' % head
-    for ln in out.splitlines():
-        if ln.startswith(pref) and ln.endswith(">>"):
-            yield ln[len(pref):-2]
+    """Yield the payloads of PrintT(<<head, "string">>) output: TLC prints short tuples on one line
+    (`<<"HEAD", "json">>`) and wraps long ones over several lines (`<< "HEAD",\n   "json" >>`)."""
+    rx = _RE_TUPLE2.get(head)
+    if rx is None:
+        rx = _RE_TUPLE2[head] = re.compile(r'<<\s*"%s",\s*("(?:[^"\\]|\\.)*")\s*>>' % re.escape(head))
+    for m in rx.finditer(out):
+        yield m.group(1)
 
 
 def tla_unquote(s):
@@ -159,7 +164,7 @@ def generate(module, cfg, tag, out_file_env="GEN_FILE", timeout=1200, xmx="6g", 
     return cases, r
 
 
-_RE_REJECT = re.compile(r'^<<"REJECT", (\d+), (\d+), "([^"]*)">>$')
+_RE_REJECT = re.compile(r'<<\s*"REJECT",\s*(\d+),\s*(\d+),\s*"([^"]*)"\s*>>')      # one-line and wrapped form
 
 
 def validate(trace_module, cfg, trace_file, tag, n_events, n_traces, timeout=3600, xmx="4g"):
@@ -175,9 +180,8 @@ def validate(trace_module, cfg, trace_file, tag, n_events, n_traces, timeout=360
     if r["distinct"] != expect:
         raise MachineryError("trace validation incomplete in %s: %d states, expected %d (events+traces)\n%s" %
                              (trace_module, r["distinct"], expect, _tail(out, 20)))
-    rej = []
-    for ln in out.splitlines():
-        m = _RE_REJECT.match(ln.strip())
-        if m:
-            rej.append((int(m.group(1)), int(m.group(2)), m.group(3)))
+    rej = [(int(m.group(1)), int(m.group(2)), m.group(3)) for m in _RE_REJECT.finditer(out)]
+    if len(rej) != out.count('"REJECT"'):
+        raise MachineryError("could not parse every REJECT line of %s (%d parsed, %d printed)" %
+                             (trace_module, len(rej), out.count('"REJECT"')))
     return rej, r
